@@ -71,9 +71,9 @@ C16OK(rec) == (rec.op \in {"reserve", "resize", "shrink"} /\ rec.fail) =>
                  /\ (rec.out = "ok" /\ \E k \in 1..Len(rec.ev) : rec.ev[k][1] = "allocfail") => ToSt(rec.post) = ToSt(rec.pre)
 VARIABLE i
 Judge(rec) ==
-    /\ (Level # 2 \/ C16OK(rec) \/ PrintT(<<"L2FAIL", "C16", rec.id>>))
-    /\ (Level # 2 \/ C09OK(rec) \/ PrintT(<<"L2FAIL", "C09", rec.id>>))
-    /\ (Level # 1 \/ StepOK(rec) \/ PrintT(<<"L1DRIFT", "vec", rec.id>>))
+    /\ (IF Level # 2 \/ C16OK(rec) THEN TRUE ELSE PrintT(<<"L2FAIL", "C16", rec.id>>))
+    /\ (IF Level # 2 \/ C09OK(rec) THEN TRUE ELSE PrintT(<<"L2FAIL", "C09", rec.id>>))
+    /\ (IF Level # 1 \/ StepOK(rec) THEN TRUE ELSE PrintT(<<"L1DRIFT", "vec", rec.id>>))
 TInit == i = 1
 TNext == i < Len(Recs) /\ i' = i + 1 /\ Judge(Recs[i + 1])
 TSpec == TInit /\ [][TNext]_i
